@@ -6,3 +6,5 @@ import XProofs.Properties.C18
 #print axioms Properties.C18.C18_recover
 #print axioms Properties.C18.C18_outside_untouched
 #print axioms Properties.C18.C18_recover_exec
+#print axioms Properties.C18.C18_recover_function_tasks
+#print axioms Properties.C18.C18_writes_only_triggered_targets
